@@ -1,6 +1,6 @@
 //! C35 — the JSON documentation export is complete and reproducible (seam permutation).
 //!
-//! Workspaces on disk = every placement of 8 declarations (absent / main workspace / library root; the
+//! Workspaces on disk = every placement of 9 declarations (absent / main workspace / library root; the
 //! split class additionally "one half in each"). Each is loaded through the crate's own `load_workspace`
 //! and exported through `json_generator::export` (hook H6). The three exported lists take their order
 //! from hash collections; the order seams `doc_export.{types,globals,modules}` let the engine dictate
@@ -19,7 +19,11 @@ use std::sync::Mutex;
 use std::time::Duration;
 use vcore::*;
 
-pub const DECLS: [&str; 8] = ["class", "split", "enum", "alias", "gval", "gtab", "modt", "modv"];
+/// number of declarations
+pub const ND: usize = 9;
+/// index of the configuration digit in a placement
+const CFG: usize = ND;
+pub const DECLS: [&str; ND] = ["class", "split", "enum", "alias", "gval", "gtab", "modt", "modv", "modd"];
 const PLACE: [&str; 4] = ["absent", "main", "lib", "straddle"];
 pub const SITES: [&str; 3] = ["doc_export.types", "doc_export.globals", "doc_export.modules"];
 
@@ -36,7 +40,9 @@ fn decl_files(d: usize) -> Vec<(&'static str, &'static str)> {
         4 => vec![("gval.lua", "--- a global value\nVGlobalValue = 42\n")],
         5 => vec![("gtab.lua", "--- a global table\nVGlobalTable = { k = 1, s = \"x\" }\n")],
         6 => vec![("modt.lua", "local M = {}\nM.answer = 42\nfunction M.f(a) return a end\nreturn M\n")],
-        _ => vec![("modv.lua", "return 42\n")],
+        7 => vec![("modv.lua", "return 42\n")],
+        // a second file with the module name of `modt.lua`: two modules of one name, told apart by their file only
+        _ => vec![("modt/init.lua", "return { dup = true }\n")],
     }
 }
 
@@ -50,20 +56,21 @@ fn decl_entry(d: usize) -> (&'static str, &'static str, Option<&'static str>) {
         4 => ("globals", "VGlobalValue", Some("field")),
         5 => ("globals", "VGlobalTable", Some("table")),
         6 => ("modules", "modt", None),
-        _ => ("modules", "modv", None),
+        7 => ("modules", "modv", None),
+        _ => ("modules", "modt", None),
     }
 }
 
-/// placement of the 8 declarations + which `.emmyrc.json` the workspace carries (index 8: 0 plain, 1 rich)
-pub type Placement = [u8; 9];
+/// placement of the ND declarations + which `.emmyrc.json` the workspace carries (index CFG: 0 plain, 1 rich)
+pub type Placement = [u8; ND + 1];
 
 pub fn radices() -> Vec<usize> {
-    (0..9).map(|d| if d == 1 { 4 } else if d == 8 { 2 } else { 3 }).collect()
+    (0..=ND).map(|d| if d == 1 { 4 } else if d == CFG { 2 } else { 3 }).collect()
 }
 
 fn placement_json(p: &Placement) -> Value {
     let mut m = serde_json::Map::new();
-    for d in 0..8 {
+    for d in 0..ND {
         if p[d] != 0 {
             m.insert(DECLS[d].to_string(), json!(PLACE[p[d] as usize]));
         }
@@ -73,16 +80,16 @@ fn placement_json(p: &Placement) -> Value {
 
 fn witness_json(p: &Placement) -> Value {
     let mut w = json!({"decls": placement_json(p)});
-    if p[8] == 1 {
+    if p[CFG] == 1 {
         w["config"] = json!("rich");
     }
     w
 }
 
 fn placement_from_json(w: &Value) -> Option<Placement> {
-    let mut p = [0u8; 9];
+    let mut p = [0u8; ND + 1];
     if w["config"].as_str() == Some("rich") {
-        p[8] = 1;
+        p[CFG] = 1;
     }
     for (k, val) in w["decls"].as_object()? {
         let d = DECLS.iter().position(|x| x == k)?;
@@ -111,7 +118,7 @@ fn make_workspace(dir: &Path, p: &Placement, on_disk: bool) -> Ws {
     }
     let mut texts: Vec<(PathBuf, String)> = Vec::new();
     let mut main_modules = BTreeSet::new();
-    for d in 0..8 {
+    for d in 0..ND {
         let files = decl_files(d);
         for (fi, (name, content)) in files.iter().enumerate() {
             let root = match p[d] {
@@ -131,12 +138,12 @@ fn make_workspace(dir: &Path, p: &Placement, on_disk: bool) -> Ws {
             }
             texts.push((root.join(name), content.to_string()));
             if root == &main {
-                main_modules.insert(name.trim_end_matches(".lua").to_string());
+                main_modules.insert(name.trim_end_matches(".lua").trim_end_matches("/init").to_string());
             }
         }
     }
     let mut rc = json!({"workspace": {"library": [lib.to_string_lossy()]}});
-    if p[8] == 1 {
+    if p[CFG] == 1 {
         // a configuration that fills the two hash maps inside Emmyrc (the export embeds the configuration)
         rc["diagnostics"] = json!({"severity": {
             "unused": "warning", "undefined-global": "warning", "type-not-found": "hint", "missing-return": "error",
@@ -219,16 +226,26 @@ fn completeness(doc: &Value, p: &Placement, ws: &Ws) -> Vec<(String, String)> {
         for (n, _) in &names {
             *count.entry(n.as_str()).or_insert(0) += 1;
         }
-        let mut required: BTreeMap<&str, (usize, Option<&str>)> = BTreeMap::new();
-        for d in 0..8 {
+        // name -> (first declaration, kind tag, number of main-workspace declarations of that name: two files
+        // of one module name are two modules, each listed once)
+        let mut required: BTreeMap<&str, (usize, Option<&str>, usize)> = BTreeMap::new();
+        for d in 0..ND {
             let (l, name, tag) = decl_entry(d);
             if l == list && (p[d] == 1 || p[d] == 3) {
-                required.insert(name, (d, tag));
+                required.entry(name).or_insert((d, tag, 0)).2 += 1;
             }
         }
-        for (name, (d, tag)) in &required {
+        for (name, (d, tag, want)) in &required {
             match count.get(name).copied().unwrap_or(0) {
                 0 => bad.push((format!("missing:{}", DECLS[*d]), format!("`{name}` is declared in the main workspace but `{list}` does not list it"))),
+                n if n == *want && n > 1 => {
+                    // same-name modules: the entries must be distinct (one per file)
+                    let files: BTreeSet<String> = doc[list].as_array().map(|a| a.iter().filter(|e| e["name"].as_str() == Some(*name)).map(|e| e["file"].to_string()).collect()).unwrap_or_default();
+                    if files.len() != n {
+                        bad.push((format!("duplicate:{}", DECLS[*d]), format!("`{name}` is declared by {n} files but the {n} entries of `{list}` name {} distinct files", files.len())));
+                    }
+                }
+                n if n < *want => bad.push((format!("missing:{}", DECLS[*d]), format!("`{name}` is declared by {want} main-workspace files but `{list}` lists it {n} times"))),
                 1 => {
                     if let Some(tag) = tag {
                         let got = names.iter().find(|(n, _)| n == name).and_then(|(_, t)| t.clone());
@@ -251,7 +268,7 @@ fn completeness(doc: &Value, p: &Placement, ws: &Ws) -> Vec<(String, String)> {
                 }
                 continue;
             }
-            let from_lib = (0..8).any(|d| decl_entry(d).0 == list && decl_entry(d).1 == *n && p[d] == 2);
+            let from_lib = (0..ND).any(|d| decl_entry(d).0 == list && decl_entry(d).1 == *n && p[d] == 2);
             let origin = if from_lib { "library" } else { "foreign" };
             bad.push((format!("leak:{origin}:{list}"), format!("`{list}` lists `{n}`, which is not declared in the main workspace")));
         }
@@ -456,8 +473,10 @@ fn check_case(dir: &Path, p: &Placement, o: &Opts) -> CaseOut {
             if names.len() != lens[si] {
                 continue; // the seam vector is not the output list (an entry was dropped later); leave it
             }
+            // entries of one name (two files of one module name) are told apart by their whole content
+            let whole: Vec<String> = doc[*list].as_array().map(|a| a.iter().map(|e| e.to_string()).collect()).unwrap_or_default();
             let mut order: Vec<usize> = (0..names.len()).collect();
-            order.sort_by(|&x, &y| names[x].cmp(&names[y]).then(x.cmp(&y)));
+            order.sort_by(|&x, &y| names[x].cmp(&names[y]).then_with(|| whole[x].cmp(&whole[y])).then(x.cmp(&y)));
             verif_hooks::install_order(site_static(SITES[si]), order);
         }
         let s = export(a);
@@ -467,7 +486,11 @@ fn check_case(dir: &Path, p: &Placement, o: &Opts) -> CaseOut {
     let c1 = canon(&a1, &out0);
     out.exports += 1;
     let mut unowned_found = false;
-    for _ in 0..o.reloads {
+    // when the bytes depend on a list order, outputs of different loads cannot be lined up by pinning the seams
+    // (the lists are partly sorted after the seam): the order dependence is the finding, the comparisons below
+    // would only restate it
+    let order_dependent = site_differs.iter().any(|b| *b) || combo_differs;
+    for _ in 0..(if order_dependent { 0 } else { o.reloads }) {
         let a2 = load(&ws);
         verif_hooks::clear_orders();
         let out0b = export(&a2);
@@ -482,7 +505,7 @@ fn check_case(dir: &Path, p: &Placement, o: &Opts) -> CaseOut {
 
     // on-disk cases validate the in-memory shortcut of the exhaustive phase: same tree, no std library,
     // texts handed over directly — must export the same bytes once the list orders are pinned
-    if ws.on_disk {
+    if ws.on_disk && !order_dependent {
         // same files in the same registration order as the directory walk of `load_workspace`
         let mut wm = make_workspace(dir, p, false);
         wm.files = collect_like_disk(&wm);
@@ -521,7 +544,7 @@ fn check_case(dir: &Path, p: &Placement, o: &Opts) -> CaseOut {
         for s in &distinct {
             if reachable.contains(*s) {
                 out.bin_ok += outs.iter().filter(|x| x == s).count() as u64;
-            } else if out.skipped_sites.is_empty() && !unowned_found {
+            } else if out.skipped_sites.is_empty() && !unowned_found && !order_dependent {
                 // not reachable by permuting the lists: something else differs (or in-process ≠ binary)
                 out.violations.push(unowned(&out0, s, "real binary in a fresh process vs in-process export"));
                 unowned_found = true;
@@ -544,7 +567,7 @@ fn check_case(dir: &Path, p: &Placement, o: &Opts) -> CaseOut {
 
 /// canonical smallest workspace for a signature (tried first so that one root cause = one witness)
 fn canonical_for(sig: &str) -> Vec<Placement> {
-    let mut p = [0u8; 9];
+    let mut p = [0u8; ND + 1];
     match sig {
         "order-dependent:doc_export.types" => {
             p[0] = 1;
@@ -561,12 +584,12 @@ fn canonical_for(sig: &str) -> Vec<Placement> {
         s if s.starts_with("unowned-nondeterminism:") => {
             // hash-order effects outside the seams are found by sampling; look for them in the smallest
             // workspaces first, with many reloads: the empty one (plain, rich config), then each single declaration
-            let mut v = vec![[0u8; 9]];
-            let mut rich = [0u8; 9];
-            rich[8] = 1;
+            let mut v = vec![[0u8; ND + 1]];
+            let mut rich = [0u8; ND + 1];
+            rich[CFG] = 1;
             v.push(rich);
-            for d in 0..8 {
-                let mut q = [0u8; 9];
+            for d in 0..ND {
+                let mut q = [0u8; ND + 1];
                 q[d] = 1;
                 v.push(q);
                 if d == 1 {
@@ -609,7 +632,7 @@ fn minimise(dir: &Path, p: &Placement, sig: &str, o: &Opts, cache: &Cache) -> (P
     let mut cur = *p;
     let mut detail = String::new();
     // drop declarations and the rich configuration, then move library placements into the main workspace
-    for d in (0..9).rev() {
+    for d in (0..=ND).rev() {
         if cur[d] == 0 {
             continue;
         }
@@ -620,7 +643,7 @@ fn minimise(dir: &Path, p: &Placement, sig: &str, o: &Opts, cache: &Cache) -> (P
             detail = dt;
         }
     }
-    for d in 0..8 {
+    for d in 0..ND {
         if cur[d] > 1 {
             let mut cand = cur;
             cand[d] = 1;
@@ -664,22 +687,22 @@ pub fn run(args: &Args) -> ! {
     let total = mixed_total(&rad);
     let thorough = args.tier == Tier::Thorough;
     // bound = number of declarations present, iterated upward
-    let mut by_size: Vec<Vec<u64>> = vec![Vec::new(); 9];
+    let mut by_size: Vec<Vec<u64>> = vec![Vec::new(); ND + 1];
     let mut buf = Vec::new();
     for i in 0..total {
         decode_mixed(i, &rad, &mut buf);
-        by_size[buf[..8].iter().filter(|&&x| x != 0).count()].push(i);
+        by_size[buf[..ND].iter().filter(|&&x| x != 0).count()].push(i);
     }
     let decode = |i: u64| -> Placement {
         let mut dg = Vec::new();
         decode_mixed(i, &rad, &mut dg);
-        let mut p = [0u8; 9];
-        for d in 0..9 {
+        let mut p = [0u8; ND + 1];
+        for d in 0..=ND {
             p[d] = dg[d] as u8;
         }
         p
     };
-    let max_size = args.extra_usize("decls").unwrap_or(8).min(8);
+    let max_size = args.extra_usize("decls").unwrap_or(ND).min(ND);
     let cache: Cache = Mutex::new(HashMap::new());
     let counters: Mutex<(u64, u64, u64, u64, u64, [usize; 3])> = Mutex::new((0, 0, 0, 0, 0, [0; 3]));
     let mem_checks: Mutex<(u64, Vec<String>)> = Mutex::new((0, Vec::new()));
@@ -696,7 +719,7 @@ pub fn run(args: &Args) -> ! {
                 return;
             }
         };
-        let nontrivial = p[..8].iter().any(|&x| x != 0);
+        let nontrivial = p[..ND].iter().any(|&x| x != 0);
         st.evaluations += r.states.max(1);
         st.nontrivial += if nontrivial { r.states.max(1) } else { 0 };
         st.outcome(&format!("{label}: {}", r.outcome));
@@ -758,14 +781,15 @@ pub fn run(args: &Args) -> ! {
 
     // ---- phase 2 (process level, on disk, std library loaded; sampled, supplementary)
     // quick: a fixed set of 6 workspaces × 2 fresh processes; thorough: every workspace × 3, bound upward
-    let mk = |v: [u8; 9]| -> Placement { v };
+    let mk = |v: [u8; ND + 1]| -> Placement { v };
     let fixed: Vec<Placement> = vec![
-        mk([0, 0, 0, 0, 0, 0, 0, 0, 0]),
-        mk([1, 1, 1, 1, 1, 1, 1, 1, 0]),
-        mk([1, 1, 1, 1, 1, 1, 1, 1, 1]),
-        mk([2, 2, 2, 2, 2, 2, 2, 2, 0]),
-        mk([1, 3, 2, 1, 2, 1, 1, 2, 0]),
-        mk([1, 0, 1, 0, 0, 0, 0, 0, 0]),
+        mk([0, 0, 0, 0, 0, 0, 0, 0, 0, 0]),
+        mk([1, 1, 1, 1, 1, 1, 1, 1, 1, 0]),
+        mk([1, 1, 1, 1, 1, 1, 1, 1, 1, 1]),
+        mk([2, 2, 2, 2, 2, 2, 2, 2, 2, 0]),
+        mk([1, 3, 2, 1, 2, 1, 1, 2, 1, 0]),
+        mk([1, 0, 1, 0, 0, 0, 0, 0, 0, 0]),
+        mk([0, 0, 0, 0, 0, 0, 1, 0, 1, 0]),
     ];
     let mut proc_done = 0u64;
     let mut proc_target = 0u64;
@@ -773,7 +797,7 @@ pub fn run(args: &Args) -> ! {
     if completed.is_some() {
         let groups: Vec<Vec<Placement>> = if thorough {
             (0..=max_size)
-                .map(|sz| by_size[sz].iter().map(|&i| decode(i)).filter(|p| p[8] == 0 || sz <= 1 || sz == 8).collect())
+                .map(|sz| by_size[sz].iter().map(|&i| decode(i)).filter(|p| p[CFG] == 0 || sz <= 1 || sz == ND).collect())
                 .collect()
         } else {
             vec![fixed.clone()]
@@ -809,21 +833,21 @@ pub fn run(args: &Args) -> ! {
     if let Some(first) = mem.1.first() {
         rep.machinery_error = Some(format!("C35: the in-memory load used by the exhaustive phase does not export what the on-disk load exports ({} of {} cases), e.g. {first}", mem.1.len(), mem.0));
     }
-    rep.exhaustive = completed == Some(8) && proc_complete;
+    rep.exhaustive = completed == Some(max_size) && max_size == ND && proc_complete;
     rep.rule = "every declaration placed in the main workspace occurs exactly once (with its kind) in its list (types/globals/modules) and nothing declared only in the library root or the std library occurs; the exported bytes are identical for every iteration order of the three hash collections the lists are built from, for further loads in the same process with those orders pinned, and the real binary's output in fresh processes is one of the outputs reachable through the seams".into();
     rep.bounds = json!({
         "declarations": DECLS,
         "placements": "absent | main | lib (split class also: one half each)",
         "configurations": "plain and rich .emmyrc.json (8 severity overrides, 6 special symbols) for every workspace",
         "workspaces_total": total,
-        "bound": "number of declarations present, iterated 0..8",
+        "bound": "number of declarations present, iterated 0..9",
         "largest_bound_completed": completed,
         "core_bound": "≤ 2 declarations (every placement, both configurations, every seam order) runs before anything else",
         "core_complete": completed.is_some_and(|c| c >= 2.min(max_size)),
         "workspaces_completed": workspaces_done,
         "seam_orders": "full product of all k! orders of the three sites, every workspace",
         "max_list_lengths_seen": {"types": c.5[0], "globals": c.5[1], "modules": c.5[2]},
-        "process_level": if thorough { "every workspace on disk through the crate's load_workspace (std library loaded) + 3 fresh processes of the real binary (rich configuration for ≤ 1 or all 8 declarations)" } else { "sampled: a fixed set of 6 workspaces (empty; all in main, plain and rich configuration; all in the library; mixed with the split class straddling; class+enum) on disk through the crate's load_workspace (std library loaded) + 2 fresh processes of the real binary each" },
+        "process_level": if thorough { "every workspace on disk through the crate's load_workspace (std library loaded) + 3 fresh processes of the real binary (rich configuration for ≤ 1 or all 9 declarations)" } else { "sampled: a fixed set of 7 workspaces (empty; all in main, plain and rich configuration; all in the library; mixed with the split class straddling; class+enum; two modules of one name) on disk through the crate's load_workspace (std library loaded) + 2 fresh processes of the real binary each" },
         "process_level_workspaces_completed": proc_done,
         "process_level_workspaces_targeted": proc_target,
     });
